@@ -284,6 +284,7 @@ func c13mDumpText(s c13mSnap) string {
 func (r *c13mRun) settle() (c13mSnap, bool) {
 	deadline := time.Now().Add(c13mLimit)
 	var mismatchSince time.Time
+	lostRounds := 0
 	for spin := 0; ; spin++ {
 		// a stop-the-world dump slows everything down: give a request that is on its way a moment to be answered first
 		if n, _ := r.outstanding(); n > 0 && spin < 40 {
@@ -347,6 +348,13 @@ func (r *c13mRun) settle() (c13mSnap, bool) {
 				if mismatchSince.IsZero() {
 					mismatchSince = time.Now()
 				} else if time.Since(mismatchSince) > 15*time.Second {
+					// a datagram lost on the loopback interface is rare; the same requests lost three times in a row,
+					// with the registrar idle each time, are requests the registrar does not answer
+					lostRounds++
+					if lostRounds >= 3 {
+						r.verdict("C13:not-answered:dns", fmt.Sprintf("the registrar is idle, yet %d DNS request(s) - sent, and re-sent %d times over 45 s - have no answer: the DNS registrar does not answer them", out-visible, lostRounds-1), true)
+						return s, false
+					}
 					for _, q := range dns {
 						if q.dns != nil {
 							_ = q.dns.Close()
